@@ -73,7 +73,13 @@ where
     let vi: (&T, usize) = a
         .iter()
         .zip(0..)
-        .max_by(|x, y| x.0.abs().partial_cmp(&y.0.abs()).unwrap())
+        // NaN entries (a singular system already divided by a zero pivot) compare as equal rather
+        // than panicking; the NaN then propagates to the solution where callers can detect it.
+        .max_by(|x, y| {
+            x.0.abs()
+                .partial_cmp(&y.0.abs())
+                .unwrap_or(std::cmp::Ordering::Equal)
+        })
         .unwrap();
     vi.1
 }
